@@ -1,234 +1,11 @@
-(* Composite fields: Pack then Unpack round trip for nested field specifications (tagged / TLV and positional
+(* Composite fields: Pack then Unpack round trip for nested field specifications (tagged / TLV, positional and bitmapped
    composites over any coherent subfields), by induction over the specification. About Model/Field.v. *)
 From Iso Require Import Model.Base Model.Padding Model.Encoding Model.Prefix Model.Bitmap Model.Spec Model.Field
-     Proofs.BaseLemmas Proofs.PaddingProofs Proofs.EncodingProofs Proofs.DigitsProofs Proofs.PrefixProofs Proofs.FieldProofs.
-From Coq Require Import ZifyBool ZifyNat ZifyN.
+     Proofs.BaseLemmas Proofs.PaddingProofs Proofs.EncodingProofs Proofs.DigitsProofs Proofs.PrefixProofs Proofs.FieldProofs Proofs.BitmapProofs.
+From Iso Require Export Proofs.CompositeLoops Proofs.BitmapCompositeProofs.
+From Iso Require Import Proofs.StateProofs.
+From Coq Require Import ZifyBool ZifyNat ZifyN Sorting.Permutation Sorting.Sorted.
 Set Default Timeout 120.
-
-(* ---------------- association lists ---------------- *)
-Lemma bytes_eqb_eq a b : bytes_eqb a b = true <-> a = b.
-Proof.
-  revert b. induction a as [|x a IH]; intros [|y b]; cbn [bytes_eqb]; try (split; [discriminate|discriminate]); [tauto|].
-  rewrite Bool.andb_true_iff, byte_eqb_eq, IH. split; [intros (-> & ->); reflexivity|intros H; inversion H; tauto].
-Qed.
-Lemma bytes_eqb_refl a : bytes_eqb a a = true.
-Proof. apply bytes_eqb_eq. reflexivity. Qed.
-Lemma bytes_eqb_neq a b : bytes_eqb a b = false <-> a <> b.
-Proof. destruct (bytes_eqb a b) eqn:E; [apply bytes_eqb_eq in E; split; [discriminate|congruence]|]. split; [intros _ H; apply bytes_eqb_eq in H; congruence|reflexivity]. Qed.
-
-Lemma blookup_bupdate_same {A} k (v : A) l : (exists w, blookup k l = Some w) -> blookup k (bupdate k v l) = Some v.
-Proof.
-  induction l as [|(k', v') r IH]; cbn [blookup bupdate]; intros (w & H); [discriminate|].
-  destruct (bytes_eqb k k') eqn:E; cbn [blookup]; rewrite E; [reflexivity|]. apply IH. exists w. exact H.
-Qed.
-Lemma blookup_bupdate_other {A} k k' (v : A) l : k <> k' -> blookup k' (bupdate k v l) = blookup k' l.
-Proof.
-  intros Hn. induction l as [|(k2, v2) r IH]; cbn [blookup bupdate]; [reflexivity|].
-  destruct (bytes_eqb k k2) eqn:E; cbn [blookup].
-  - apply bytes_eqb_eq in E. subst k2. replace (bytes_eqb k' k) with false by (symmetry; apply bytes_eqb_neq; congruence). reflexivity.
-  - rewrite IH. reflexivity.
-Qed.
-Lemma bmem_In k l : bmem k l = true <-> In k l.
-Proof.
-  unfold bmem. rewrite existsb_exists. split.
-  - intros (x & Hi & He). apply bytes_eqb_eq in He. subst. exact Hi.
-  - intros H. exists k. split; [exact H|apply bytes_eqb_refl].
-Qed.
-Lemma bmem_app k a b : bmem k (a ++ b) = bmem k a || bmem k b.
-Proof. unfold bmem. apply existsb_app. Qed.
-Lemma bmem_badd k k' l : bmem k' (badd k l) = bytes_eqb k' k || bmem k' l.
-Proof.
-  unfold badd. destruct (bmem k l) eqn:E.
-  - destruct (bytes_eqb k' k) eqn:E2; [|reflexivity]. apply bytes_eqb_eq in E2. subst. rewrite E. reflexivity.
-  - rewrite bmem_app. cbn [bmem existsb]. rewrite Bool.orb_false_r. apply Bool.orb_comm.
-Qed.
-
-Lemma zdrop_app2 {A} (a b : list A) n : n = zlen a -> zdrop n (a ++ b) = b.
-Proof. intros ->. apply zdrop_app. Qed.
-
-(* ---------------- tagged composites: the TLV loop ---------------- *)
-Section TagMode.
-  Variable packers : list (bytes * (fstate -> outcome bytes)).
-  Variable unpackers : list (bytes * (fstate -> bytes -> fstate * ures Z)).
-  Variable t : tagspec.
-  Variable e : encoder.
-  Variable dom shp : bytes -> fstate -> Prop.
-  Variable R : bytes -> fstate -> fstate -> Prop.
-
-  (* what the induction over the specification provides for a subfield *)
-  Definition sub_rt (tag : bytes) : Prop :=
-    forall pk up, blookup tag packers = Some pk -> blookup tag unpackers = Some up ->
-    forall st b, dom tag st -> pk st = Ok b -> forall st0 rest, shp tag st0 ->
-      exists st', up st0 (b ++ rest) = (st', UOk (zlen b)) /\ R tag st st' /\ pk st' = Ok b /\ shp tag st'.
-  (* the wire form of a tag reads back as the tag *)
-  Definition tag_rt (tag : bytes) : Prop :=
-    forall tb, tag_wire t tag = Ok tb ->
-      1 <= zlen tb /\ exists tagb, (forall rest, enc_decode e (tb ++ rest) (tg_len t) = Ok (tagb, zlen tb)) /\ unpad (tg_pad t) tagb = tag.
-
-  Lemma unpack_by_tag_rt : forall order set sts body,
-    NoDup order ->
-    (forall tag, In tag order -> sub_rt tag /\ tag_rt tag /\ exists up, blookup tag unpackers = Some up) ->
-    (forall tag st, In tag order -> bmem tag set = true -> blookup tag sts = Some st -> dom tag st) ->
-    pack_by_tag packers t order set sts = Ok body ->
-    forall fuel data off pre seta stsa, data = pre ++ body -> off = zlen pre -> (length body < fuel)%nat ->
-    (forall tag, In tag order -> exists st0, blookup tag stsa = Some st0 /\ shp tag st0) ->
-    exists set' sts', unpack_by_tag unpackers fuel t e data off seta stsa = ((set', sts'), UOk (zlen data)) /\
-      (forall tag, bmem tag set' = bmem tag seta || (bmem tag order && bmem tag set)) /\
-      (forall tag, In tag order -> bmem tag set = true ->
-         exists x y pk, blookup tag sts = Some x /\ blookup tag sts' = Some y /\ blookup tag packers = Some pk /\
-                        R tag x y /\ pk y = pk x /\ shp tag y) /\
-      (forall tag, ~ (In tag order /\ bmem tag set = true) -> blookup tag sts' = blookup tag stsa).
-  Proof.
-    induction order as [|h order IH]; intros set sts body Hnd Hsub Hdom Hp fuel data off pre seta stsa Hdata Hoff Hfuel Hshp.
-    - cbn [pack_by_tag] in Hp. assert (body = []) by congruence. subst body. rewrite app_nil_r in Hdata. subst data off.
-      destruct fuel as [|f]; [cbn in Hfuel; lia|]. cbn [unpack_by_tag]. replace (zlen pre <=? zlen pre) with true by lia.
-      exists seta, stsa. split; [reflexivity|]. split; [intros tag; cbn; rewrite Bool.orb_false_r; reflexivity|].
-      split; [intros tag []|reflexivity].
-    - cbn [pack_by_tag] in Hp. unfold sub_state in Hp.
-      destruct (blookup h packers) as [pk|] eqn:Epk; [|discriminate]. destruct (blookup h sts) as [st|] eqn:Est; [|discriminate].
-      apply NoDup_cons_iff in Hnd. destruct Hnd as (Hnotin & Hnd').
-      assert (Hsub' : forall tag, In tag order -> sub_rt tag /\ tag_rt tag /\ exists up, blookup tag unpackers = Some up)
-        by (intros tag Hi; apply Hsub; right; exact Hi).
-      assert (Hdom' : forall tag st, In tag order -> bmem tag set = true -> blookup tag sts = Some st -> dom tag st)
-        by (intros tag s0 Hi; apply Hdom; right; exact Hi).
-      destruct (bmem h set) eqn:Eset.
-      + destruct (tag_wire t h) as [tb| | |] eqn:Etb; cbn [obind] in Hp; try discriminate.
-        destruct (pk st) as [pb| | |] eqn:Epb; cbn [obind] in Hp; try discriminate.
-        destruct (pack_by_tag packers t order set sts) as [more| | |] eqn:Emore; cbn [obind] in Hp; try discriminate.
-        assert (body = tb ++ pb ++ more) by congruence. subst body. clear Hp.
-        destruct (Hsub h (or_introl eq_refl)) as (Hrt & Htag & up & Eup).
-        destruct (Htag tb Etb) as (Htb1 & tagb & Hdec & Hunpad).
-        destruct (Hshp h (or_introl eq_refl)) as (st0 & Est0 & Hshp0).
-        destruct (Hrt pk up Epk Eup st pb (Hdom h st (or_introl eq_refl) Eset Est) Epb st0 more Hshp0) as (st' & Hup & HR & Hpk' & Hshp').
-        destruct fuel as [|f]; [lia|].
-        assert (Hshp2 : forall tag, In tag order -> exists s0, blookup tag (bupdate h st' stsa) = Some s0 /\ shp tag s0).
-        { intros tag Hi. rewrite blookup_bupdate_other by (intros ->; contradiction). apply Hshp. right. exact Hi. }
-        assert (Hf2 : (length more < f)%nat).
-        { rewrite !app_length in Hfuel. unfold zlen in Htb1. lia. }
-        destruct (IH set sts more Hnd' Hsub' Hdom' Emore f data (off + zlen tb + zlen pb) (pre ++ tb ++ pb) (badd h seta) (bupdate h st' stsa))
-          as (set' & sts' & Hun & Hset' & Hsts' & Hother).
-        { subst data. rewrite <- !app_assoc. reflexivity. } { subst off. zlens. lia. } { exact Hf2. } { exact Hshp2. }
-        exists set', sts'. split.
-        * cbn [unpack_by_tag]. pose proof (zlen_nonneg pb). pose proof (zlen_nonneg more). pose proof (zlen_nonneg pre).
-          replace (zlen data <=? off) with false by (subst data off; zlens; lia).
-          replace (zdrop off data) with (tb ++ pb ++ more) by (subst data; symmetry; apply zdrop_app2; exact Hoff).
-          rewrite Hdec, Hunpad, Eup. unfold sub_state. rewrite Est0.
-          replace (zdrop (off + zlen tb) data) with (pb ++ more).
-          2:{ subst data. rewrite (app_assoc pre tb). symmetry. apply zdrop_app2. zlens. lia. }
-          rewrite Hup. exact Hun.
-        * split; [|split].
-          -- intros tag. rewrite Hset', bmem_badd. cbn [bmem existsb]. fold (bmem tag order).
-             destruct (bytes_eqb tag h) eqn:E; [apply bytes_eqb_eq in E; subst tag; rewrite Eset; cbn; rewrite ?Bool.orb_true_r; reflexivity|].
-             cbn. reflexivity.
-          -- intros tag [<-|Hi] Hm.
-             ++ exists st, st', pk. rewrite Hother by (intros (Hi & _); contradiction).
-                rewrite blookup_bupdate_same by (exists st0; exact Est0). repeat split; try assumption; congruence.
-             ++ apply Hsts'; assumption.
-          -- intros tag Hn. rewrite Hother by (intros (Hi & Hm); apply Hn; split; [right; exact Hi|exact Hm]).
-             apply blookup_bupdate_other. intros <-. apply Hn. split; [left; reflexivity|exact Eset].
-      + destruct (IH set sts body Hnd' Hsub' Hdom' Hp fuel data off pre seta stsa Hdata Hoff Hfuel) as (set' & sts' & Hun & Hset' & Hsts' & Hother).
-        { intros tag Hi. apply Hshp. right. exact Hi. }
-        exists set', sts'. split; [exact Hun|]. split; [|split].
-        * intros tag. rewrite Hset'. cbn [bmem existsb]. fold (bmem tag order).
-          destruct (bytes_eqb tag h) eqn:E; [apply bytes_eqb_eq in E; subst tag; rewrite Eset, !Bool.andb_false_r; reflexivity|reflexivity].
-        * intros tag [<-|Hi] Hm; [congruence|]. apply Hsts'; assumption.
-        * intros tag Hn. apply Hother. intros (Hi & Hm). apply Hn. split; [right; exact Hi|exact Hm].
-  Qed.
-End TagMode.
-
-(* ---------------- positional composites ---------------- *)
-Section Positional.
-  Variable packers : list (bytes * (fstate -> outcome bytes)).
-  Variable unpackers : list (bytes * (fstate -> bytes -> fstate * ures Z)).
-  Variable t : tagspec.
-  Variable dom shp : bytes -> fstate -> Prop.
-  Variable R : bytes -> fstate -> fstate -> Prop.
-  Hypothesis Hnoenc : tg_enc t = None.
-
-  Lemma pack_unset_nil order set sts body : (forall tag, In tag order -> bmem tag set = false) ->
-    pack_by_tag packers t order set sts = Ok body -> body = [].
-  Proof.
-    revert body. induction order as [|h order IH]; intros body Hu Hp; cbn [pack_by_tag] in Hp; [congruence|].
-    destruct (blookup h packers); [|discriminate]. destruct (sub_state sts h); [|discriminate].
-    rewrite (Hu h (or_introl eq_refl)) in Hp. apply IH; [intros tag Hi; apply Hu; right; exact Hi|exact Hp].
-  Qed.
-
-  Lemma unpack_positional_rt isvar : forall o1 o2 set sts body,
-    NoDup (o1 ++ o2) ->
-    (forall tag, In tag (o1 ++ o2) -> sub_rt packers unpackers dom shp R tag /\ exists up, blookup tag unpackers = Some up) ->
-    (forall tag st, In tag o1 -> blookup tag sts = Some st -> dom tag st) ->
-    (forall tag, In tag o1 -> bmem tag set = true) -> (forall tag, In tag o2 -> bmem tag set = false) ->
-    (o1 = [] -> o2 = []) -> (isvar = false -> o2 = []) ->
-    (isvar = true -> forall tag pk st b, In tag o1 -> blookup tag packers = Some pk -> blookup tag sts = Some st -> pk st = Ok b -> b <> []) ->
-    pack_by_tag packers t (o1 ++ o2) set sts = Ok body ->
-    forall data off pre seta stsa, data = pre ++ body -> off = zlen pre ->
-    (forall tag, In tag (o1 ++ o2) -> exists st0, blookup tag stsa = Some st0 /\ shp tag st0) ->
-    exists set' sts', unpack_positional unpackers (o1 ++ o2) isvar data off seta stsa = ((set', sts'), UOk (zlen data)) /\
-      (forall tag, bmem tag set' = bmem tag seta || bmem tag o1) /\
-      (forall tag, In tag o1 ->
-         exists x y pk, blookup tag sts = Some x /\ blookup tag sts' = Some y /\ blookup tag packers = Some pk /\
-                        R tag x y /\ pk y = pk x /\ shp tag y) /\
-      (forall tag, ~ In tag o1 -> blookup tag sts' = blookup tag stsa).
-  Proof.
-    induction o1 as [|h o1 IH]; intros o2 set sts body Hnd Hsub Hdom Hset Hunset Hnil Hvar Hne Hp data off pre seta stsa Hdata Hoff Hshp.
-    - rewrite (Hnil eq_refl) in *. cbn [app pack_by_tag] in Hp. assert (body = []) by congruence. subst body. rewrite app_nil_r in Hdata. subst.
-      cbn [app unpack_positional]. exists seta, stsa. split; [reflexivity|]. split; [intros tag; cbn; rewrite Bool.orb_false_r; reflexivity|].
-      split; [intros tag []|reflexivity].
-    - cbn [app] in *. cbn [pack_by_tag] in Hp. unfold sub_state in Hp.
-      destruct (blookup h packers) as [pk|] eqn:Epk; [|discriminate]. destruct (blookup h sts) as [st|] eqn:Est; [|discriminate].
-      rewrite (Hset h (or_introl eq_refl)) in Hp. unfold tag_wire in Hp. rewrite Hnoenc in Hp. cbn [obind app] in Hp.
-      destruct (pk st) as [pb| | |] eqn:Epb; cbn [obind] in Hp; try discriminate.
-      destruct (pack_by_tag packers t (o1 ++ o2) set sts) as [more| | |] eqn:Emore; cbn [obind] in Hp; try discriminate.
-      assert (body = pb ++ more) by congruence. subst body. clear Hp.
-      apply NoDup_cons_iff in Hnd. destruct Hnd as (Hnotin & Hnd').
-      destruct (Hsub h (or_introl eq_refl)) as (Hrt & up & Eup).
-      destruct (Hshp h (or_introl eq_refl)) as (st0 & Est0 & Hshp0).
-      destruct (Hrt pk up Epk Eup st pb (Hdom h st (or_introl eq_refl) Est) Epb st0 more Hshp0) as (st' & Hup & HR & Hpk' & Hshp').
-      cbn [unpack_positional]. rewrite Eup. unfold sub_state. rewrite Est0.
-      replace (zdrop off data) with (pb ++ more) by (subst data; symmetry; apply zdrop_app2; exact Hoff).
-      rewrite Hup.
-      pose proof (zlen_nonneg pb). pose proof (zlen_nonneg more). pose proof (zlen_nonneg pre).
-      assert (Hhead : forall tag, bmem tag (badd h seta) || bmem tag o1 = bmem tag seta || bmem tag (h :: o1)).
-      { intros tag. rewrite bmem_badd. cbn [bmem existsb]. fold (bmem tag o1). fold (bmem tag seta).
-        destruct (bytes_eqb tag h), (bmem tag seta), (bmem tag o1); reflexivity. }
-      destruct (isvar && (zlen data <=? off + zlen pb)) eqn:Estop.
-      + (* the data is exhausted: nothing after h is set *)
-        apply Bool.andb_true_iff in Estop. destruct Estop as (Hv & Hex).
-        assert (more = []) by (subst data off; destruct more as [|c more']; [reflexivity|pose proof (zlen_nonneg more'); zlens; lia]). subst more.
-        assert (o1 = []).
-        { destruct o1 as [|h2 o1']; [reflexivity|exfalso]. cbn [app pack_by_tag] in Emore. unfold sub_state in Emore.
-          destruct (blookup h2 packers) as [pk2|] eqn:Epk2; [|discriminate]. destruct (blookup h2 sts) as [st2|] eqn:Est2; [|discriminate].
-          rewrite (Hset h2 (or_intror (or_introl eq_refl))) in Emore. unfold tag_wire in Emore. rewrite Hnoenc in Emore. cbn [obind app] in Emore.
-          destruct (pk2 st2) as [pb2| | |] eqn:Epb2; cbn [obind] in Emore; try discriminate.
-          destruct (pack_by_tag packers t (o1' ++ o2) set sts); cbn [obind] in Emore; try discriminate.
-          assert (pb2 = []) by (destruct pb2; [reflexivity|discriminate]). 
-          apply (Hne Hv h2 pk2 st2 pb2 (or_intror (or_introl eq_refl)) Epk2 Est2 Epb2). assumption. }
-        subst o1. exists (badd h seta), (bupdate h st' stsa). split; [f_equal; f_equal; subst data off; zlens; lia|].
-        split; [intros tag; rewrite <- Hhead; cbn; rewrite Bool.orb_false_r; reflexivity|]. split.
-        * intros tag [<-|[]]. exists st, st', pk. rewrite blookup_bupdate_same by (exists st0; exact Est0). repeat split; try assumption; congruence.
-        * intros tag Hn. apply blookup_bupdate_other. intros <-. apply Hn. left. reflexivity.
-      + destruct (IH o2 set sts more Hnd') with (data := data) (off := off + zlen pb) (pre := pre ++ pb) (seta := badd h seta) (stsa := bupdate h st' stsa)
-          as (set' & sts' & Hun & Hset' & Hsts' & Hother).
-        * intros tag Hi. apply Hsub. right. exact Hi.
-        * intros tag s0 Hi. apply Hdom. right. exact Hi.
-        * intros tag Hi. apply Hset. right. exact Hi.
-        * exact Hunset.
-        * intros ->. cbn [app] in Emore. pose proof (pack_unset_nil o2 set sts more Hunset Emore) as Hm. subst more.
-          destruct isvar; [|apply Hvar; reflexivity]. exfalso. cbn in Estop. subst data off. zlens. lia.
-        * exact Hvar.
-        * intros Hv tag pk0 s0 b Hi. apply (Hne Hv). right. exact Hi.
-        * exact Emore.
-        * subst data. rewrite <- app_assoc. reflexivity.
-        * subst off. zlens. lia.
-        * intros tag Hi. rewrite blookup_bupdate_other by (intros ->; contradiction). apply Hshp. right. exact Hi.
-        * exists set', sts'. split; [exact Hun|]. split; [intros tag; rewrite Hset'; apply Hhead|]. split.
-          -- intros tag [<-|Hi]; [|apply Hsts'; exact Hi].
-             exists st, st', pk. rewrite Hother by (intros Hi; apply Hnotin; apply in_or_app; left; exact Hi).
-             rewrite blookup_bupdate_same by (exists st0; exact Est0). repeat split; try assumption; congruence.
-          -- intros tag Hn. rewrite Hother by (intros Hi; apply Hn; right; exact Hi).
-             apply blookup_bupdate_other. intros <-. apply Hn. left. reflexivity.
-  Qed.
-End Positional.
 
 (* ---------------- nested specifications ---------------- *)
 Definition gop (subs : list (bytes * fspec)) : list (bytes * (fstate -> outcome bytes)) :=
@@ -274,7 +51,8 @@ Fixpoint coherent (s : fspec) : Prop :=
                   | Some e => forall tag, In tag (map fst subs) -> tag_rt t e tag
                   | None => True
                   end
-      | CBitmap _ => False     (* bitmap composites: not covered by this theorem *)
+      | CBitmap b => bm_auto b = false /\ 1 <= bm_len b /\ (bm_enc b = EncBinary \/ bm_enc b = EncHex) /\ (exists f, bm_pref b = PFixed f) /\
+                     forall tag, In tag (map fst subs) -> canon tag
       end /\
       (fix go (l : list (bytes * fspec)) : Prop := match l with [] => True | (_, s') :: r => coherent s' /\ go r end) subs
   end.
@@ -458,14 +236,13 @@ Section CompStep.
     let tags := ordered_tags mode subs in
     (forall tag, bmem tag set = true -> In tag (map fst subs)) ->
     shaped (FComp pref len mode subs) (SComp set0 sts0) ->
-    (match mode with CTag _ => True | CBitmap _ => False end) ->
     comp_pack_body (gop subs) mode tags set sts = Ok body ->
     post tags set sts sts0 set' sts' ->
     equiv (FComp pref len mode subs) (SComp set sts) (SComp set' sts') /\
     comp_pack_body (gop subs) mode tags set' sts' = Ok body /\
     shaped (FComp pref len mode subs) (SComp set' sts').
   Proof.
-    intros tags Hsub Hsh Hmode Hbody (Hset' & Hsts' & Hother).
+    intros tags Hsub Hsh Hbody (Hset' & Hsts' & Hother).
     assert (Hmem : forall tag, bmem tag set' = bmem tag set).
     { intros tag. rewrite Hset'. destruct (bmem tag set) eqn:E; [|apply Bool.andb_false_r]. rewrite Bool.andb_true_r.
       apply bmem_In. apply ordered_tags_In. apply Hsub. exact E. }
@@ -475,7 +252,11 @@ Section CompStep.
       assert (Ht : In tag tags) by (apply ordered_tags_In; change tag with (fst (tag, s')); apply in_map; exact Hi).
       destruct (Hsts' tag Ht Hm) as (x & y & pk & Hx & Hy & _ & HR & _). exists x, y. repeat split; try assumption.
       apply HR. apply In_blookup_nodup; assumption.
-    - destruct mode as [t|bm]; [|contradiction]. cbn [comp_pack_body] in *. rewrite <- Hbody. apply pack_by_tag_congr.
+    - destruct mode as [t|bm].
+      2:{ cbn [comp_pack_body] in *. rewrite <- Hbody. rewrite (pack_by_bitmap_congr (gop subs) bm tags set sts set' sts'); [reflexivity| |].
+          - intros tag _. apply Hmem.
+          - intros tag Ht Hm. destruct (Hsts' tag Ht Hm) as (x & y & pk & Hx & Hy & Hpk & _ & Heq & _). exists x, y, pk. repeat split; assumption. }
+      cbn [comp_pack_body] in *. rewrite <- Hbody. apply pack_by_tag_congr.
       + intros tag _. apply Hmem.
       + intros tag Ht Hm. destruct (Hsts' tag Ht Hm) as (x & y & pk & Hx & Hy & Hpk & _ & Heq & _). exists x, y, pk. repeat split; assumption.
       + intros tag Ht Hm Hn. exfalso.
@@ -590,8 +371,65 @@ Proof.
     destruct (Hsh0 tag s' (blookup_In _ _ _ Es)) as (x & Hx & Hs). exists x. split; [exact Hx|]. intros s2 E2. assert (s2 = s') by congruence. subst. exact Hs. }
   assert (Hkey : exists set' sts', comp_unpack_body (gou subs) mode tags (gof subs) set0 sts0 body (negb (zlen pre =? 0)) = ((set', sts'), UOk (zlen body)) /\
                                    post subs tags set sts rsts0 set' sts').
-  { destruct mode as [t|bm]; [|contradiction]. unfold comp_unpack_body. cbv zeta. fold rsts0. cbn [comp_pack_body] in *. destruct (tg_enc t) as [e|] eqn:Ee.
-    - destruct (unpack_by_tag_rt (gop subs) (gou subs) t e (dom_of subs needne) (shp_of subs) (R_of subs) tags set sts body Htags_nd) with
+  { destruct mode as [t|bm].
+    2:{ (* a bitmap of subfields *)
+        destruct Hmode as (Hauto & HBl & Henc & (fx & Hpfx) & Hcanon).
+        unfold comp_unpack_body. cbv zeta. fold rsts0. cbn [comp_pack_body] in Ebody.
+        destruct (pack_by_bitmap (gop subs) bm tags set sts (bm_new bm)) as [[bmf fields]| | |] eqn:Epb; cbn [obind] in Ebody; try discriminate.
+        destruct (bm_pack bm bmf) as [pbm| | |] eqn:Epbm; cbn [obind] in Ebody; try discriminate.
+        assert (body = pbm ++ fields) by congruence. subst body.
+        assert (Hcan_tags : forall tag, In tag tags -> canon tag) by (intros tag Ht; apply Hcanon; apply (proj1 (ordered_tags_In (CBitmap bm) subs tag) Ht)).
+        destruct (pack_by_bitmap_spec (gop subs) bm Hauto tags set sts (bm_new bm) bmf fields Hcan_tags Epb) as (Hlen & Hbits & Hsel & Hrange).
+        assert (Hlnew : zlen (bm_new bm) = bm_len bm) by (unfold bm_new; rewrite zlen_repeat; lia).
+        rewrite (bm_fixed_pack_unpack bm fx bmf pbm fields (bm_new bm) Hauto HBl Henc Hpfx ltac:(lia) Epbm).
+        set (sel := filter (fun tag => bmem tag set) tags) in *.
+        set (ln := map num_of sel).
+        assert (Hsel_can : forall tag, In tag sel -> canon tag) by (intros tag Hi; apply Hcan_tags; apply filter_In in Hi; tauto).
+        assert (Hmapitoa : map itoa ln = sel).
+        { unfold ln. rewrite map_map. clear - Hsel_can. induction sel as [|x r IH]; [reflexivity|]. cbn [map]. rewrite (proj2 (canon_num x (Hsel_can x (or_introl eq_refl)))).
+          f_equal. apply IH. intros t Hi. apply Hsel_can. right. exact Hi. }
+        assert (Hsorted : StronglySorted Z.lt ln).
+        { unfold ln, sel. apply strongly_sorted_filter_map. unfold tags, ordered_tags. cbn [comp_sort].
+          destruct (sort_byint (map fst subs) Hcanon) as (Hs1 & _). rewrite Hs1. apply sorted_nodup_strict.
+          - apply sort_z_sorted.
+          - eapply Permutation.Permutation_NoDup; [apply sort_z_is_perm|].
+            (* distinct canonical numerals have distinct values *)
+            clear - Hnd Hcanon. induction (map fst subs) as [|x r IH]; [constructor|]. apply NoDup_cons_iff in Hnd. destruct Hnd as (Hx & Hr).
+            cbn [map]. constructor; [|apply IH; [exact Hr|intros t Hi; apply Hcanon; right; exact Hi]].
+            intros Hin. apply in_map_iff in Hin. destruct Hin as (y & Hy & Hyi). apply Hx.
+            assert (y = x) by (destruct (canon_num x (Hcanon x (or_introl eq_refl))) as (_ & Hx2); destruct (canon_num y (Hcanon y (or_intror Hyi))) as (_ & Hy2); rewrite <- Hx2, <- Hy2, Hy; reflexivity). subst y. exact Hyi. }
+        assert (Hln_in : forall n, In n ln -> exists tag, In tag tags /\ bmem tag set = true /\ num_of tag = n /\ itoa n = tag).
+        { intros n Hn. unfold ln in Hn. apply in_map_iff in Hn. destruct Hn as (tag & <- & Ht). apply filter_In in Ht. destruct Ht as (Ht & Hm).
+          exists tag. repeat split; try assumption. apply (canon_num tag (Hcan_tags tag Ht)). }
+        destruct (unpack_bits_rt (gop subs) (gou subs) (gof subs) (dom_of subs needne) (shp_of subs) (R_of subs) bmf (Z.to_nat (zlen bmf * 8)) 1 ln sts fields) with
+          (data := pbm ++ fields) (off := zlen pbm) (pre := pbm) (seta := @nil bytes) (stsa := rsts0) as (set' & sts' & Hun & H1 & H2 & H3).
+        - pose proof (zlen_nonneg bmf). lia.
+        - lia.
+        - exact Hsorted.
+        - intros n Hn. destruct (Hln_in n Hn) as (tag & Ht & Hm & Hnum & Hitoa). destruct (canon_num tag (Hcan_tags tag Ht)) as (Hr1 & _).
+          pose proof (Hrange tag Ht Hm) as Hr2. rewrite Hnum in *. rewrite Hitoa.
+          split; [lia|]. split; [rewrite Hlen; lia|]. split.
+          + rewrite Hbits. apply Bool.orb_true_iff. right. apply existsb_exists. exists tag. split; [exact Ht|]. rewrite Hm, Hnum, Z.eqb_refl. reflexivity.
+          + split; [apply sub_rt_of; assumption|apply Hup_ex; exact Ht].
+        - intros j Hj Hsj. rewrite Hbits in Hsj. unfold bm_new in Hsj. rewrite isset_zeros in Hsj. cbn [orb] in Hsj. apply existsb_exists in Hsj.
+          destruct Hsj as (tag & Ht & Hc). apply Bool.andb_true_iff in Hc. destruct Hc as (Hm & Hnum). unfold ln. apply in_map_iff. exists tag.
+          split; [lia|]. apply filter_In. split; assumption.
+        - intros n x Hn Hx. destruct (Hln_in n Hn) as (tag & Ht & Hm & Hnum & Hitoa). rewrite Hitoa in *. apply Hdomof; assumption.
+        - rewrite Hmapitoa. exact Hsel.
+        - reflexivity.
+        - reflexivity.
+        - intros n Hn. destruct (Hln_in n Hn) as (tag & Ht & Hm & Hnum & Hitoa). rewrite Hitoa. apply Hshpof. exact Ht.
+        - rewrite Hmapitoa in *. exists set', sts'. split; [exact Hun|]. split; [|split].
+          + intros tag. rewrite H1. cbn [bmem existsb orb]. unfold sel.
+            destruct (bmem tag (filter (fun t0 => bmem t0 set) tags)) eqn:E.
+            * apply bmem_In in E. apply filter_In in E. destruct E as (E1 & E2). rewrite E2. apply bmem_In in E1. rewrite E1. reflexivity.
+            * destruct (bmem tag tags) eqn:E1; [|reflexivity]. destruct (bmem tag set) eqn:E2; [|reflexivity].
+              assert (In tag (filter (fun t0 => bmem t0 set) tags)) by (apply filter_In; split; [apply bmem_In; exact E1|exact E2]). apply bmem_In in H. congruence.
+          + intros tag Ht Hm. assert (Hs : In tag sel) by (apply filter_In; split; assumption).
+            destruct (canon_num tag (Hcan_tags tag Ht)) as (_ & Hitoa). rewrite <- Hitoa. apply H2. unfold ln. apply in_map. exact Hs.
+          + intros tag Hn. apply H3. intros Hs. apply Hn. unfold sel in Hs. apply filter_In in Hs. exact Hs. }
+    unfold comp_unpack_body. cbv zeta. fold rsts0. cbn [comp_pack_body] in *. destruct (tg_enc t) as [e|] eqn:Ee.
+    - destruct (unpack_by_tag_rt (gop subs) (gou subs) (gof subs) t e (dom_of subs needne) (shp_of subs) (R_of subs) tags set sts body Htags_nd) with
         (fuel := S (length body)) (data := body) (off := 0) (pre := @nil byte) (seta := @nil bytes) (stsa := rsts0) as (set' & sts' & Hun & H1 & H2 & H3).
       + intros tag Ht. split; [apply sub_rt_of; assumption|]. split; [apply Hmode; apply (proj1 (ordered_tags_In (CTag t) subs tag) Ht)|apply Hup_ex; exact Ht].
       + exact Hdomof.
@@ -603,7 +441,7 @@ Proof.
       + exists set', sts'. split; [exact Hun|]. split; [intros tag; rewrite H1; reflexivity|]. split; assumption.
     - destruct (Hpos ltac:(cbn [positional]; rewrite Ee; reflexivity)) as (o1 & o2 & Ho & Ho1 & Ho2 & Hnil & Hfix).
       fold tags in Ho. rewrite Ho in *.
-      destruct (unpack_positional_rt (gop subs) (gou subs) t (dom_of subs needne) (shp_of subs) (R_of subs) Ee (negb (zlen pre =? 0)) o1 o2 set sts body Htags_nd) with
+      destruct (unpack_positional_rt (gop subs) (gou subs) (gof subs) t (dom_of subs needne) (shp_of subs) (R_of subs) Ee (negb (zlen pre =? 0)) o1 o2 set sts body Htags_nd) with
         (data := body) (off := 0) (pre := @nil byte) (seta := @nil bytes) (stsa := rsts0) as (set' & sts' & Hun & H1 & H2 & H3).
       + intros tag Ht. split; [apply sub_rt_of; assumption|apply Hup_ex; exact Ht].
       + intros tag x Ht. apply Hdomof; [apply in_or_app; left; exact Ht|apply Ho1; exact Ht].
@@ -631,7 +469,7 @@ Proof.
         * intros tag Hn. apply H3. intros Hi. apply Hn. apply Hiff. exact Hi. }
   destruct Hkey as (set' & sts' & Hun & Hpost).
   destruct (post_finish subs Hnd pref len mode set sts set0 rsts0 set' sts' body Hsub Hshr) as (Heq & Hpk & Hshp).
-  { destruct mode; [exact I|contradiction]. } { exact Ebody. } { exact Hpost. }
+  { exact Ebody. } { exact Hpost. }
   exists (SComp set' sts'). split; [|split; [exact Heq|split; [|exact Hshp]]].
   - rewrite <- app_assoc. replace (zlen (pre ++ body)) with (zlen pre + zlen body) by (zlens; reflexivity).
     apply unpack_f_comp with (dlen := zlen body) (offset := zlen pre).
